@@ -192,6 +192,7 @@ func v20gRun(twoStreams bool, sched int) {
 		// schedules are the quantifier: concrete field contents, without
 		// nulls or with the nullable fields null
 		verif.Schedules(sched)
+		verif.Races(true)
 		data = verif.Choose("data", 2)
 	} else {
 		verif.Goroutines(true)
